@@ -471,7 +471,7 @@ class JSONPointer:
 RE_INDEX = re.compile(r"0|-?[1-9][0-9]*")
 
 RE_RELATIVE_POINTER = re.compile(
-    r"(?P<ORIGIN>\d+)(?P<INDEX_G>(?P<SIGN>[+\-])(?P<INDEX>\d+))?(?P<POINTER>.*)",
+    r"(?P<ORIGIN>[0-9]+)(?P<INDEX_G>(?P<SIGN>[+\-])(?P<INDEX>[0-9]+))?(?P<POINTER>.*)",
     re.DOTALL,
 )
 
